@@ -44,7 +44,7 @@ POSITIONS = [
     ("modifier_operand_string", "v`§`"),
 ]
 
-MARKERS = ["ZQX", "__import__('os').system('ZQX')", 'ZQX");__import__("os").system("ZQX")#', "ZQX\\", "\\ZQX\"", "ZQX\n__import__('os')",
+MARKERS = ["\\\");ZQX(1)#", "\\\\\");ZQX(1)#", "\");ZQX(1)#", "\\');ZQX(1)#", "a\\\");ZQX(1)#", "ZQX","__import__('os').system('ZQX')", 'ZQX");__import__("os").system("ZQX")#', "ZQX\\", "\\ZQX\"", "ZQX\n__import__('os')",
            "ZQX[0]", "ZQX[ZQX]", "a[ZQX]", "ZQX[ZQX][ZQX]", "ZQX[ZQX]^ZQX", "[ZQX]", "ZQX.ZQX", "ZQX=1;ZQX", "ZQX)(ZQX", "ZQX:ZQX", "ZQX|ZQX", "1ZQX", "ZQX`ZQX", "ZQX;ZQX", "ZQX\rZQX", "ZQX\\\nZQX", "ZQX'''ZQX", 'ZQX"""ZQX',
            "ZQX\x00", "ZQX\u2028ZQX", "ZQX\x0cZQX", "ZQX#ZQX", "ZQX\\\\", "ZQX\\\"", "{ZQX}", "ZQX%sZQX", "ZQXé", "ＺＱＸ", "ZQX\N{KELVIN SIGN}", "ZQX²"]
 
